@@ -273,3 +273,54 @@ package atree
 //@   ensures[C02 C03] err == nil ==> has(stored, m)
 //@   modifies MapMetaDataSlab.childrenHeaders@inSub(m), MapMetaDataSlab.header@inSub(m), MapDataSlab.elements@inSub(m), MapDataSlab.header@inSub(m), MapDataSlab.next@inSub(m),
 //@        hkeyElements.*@inSub(m), singleElements.*@inSub(m), ghost.sto, ghost.stored, ghost.touched, alloc
+
+//@ pred stoFrameMDS(d *MapDataSlab, vr1 ref, vr2 ref) = forall id SlabID :: old(sto[id]) != nil && old(sto[id]) != vr1 && old(sto[id]) != vr2 && id != old(d.header.slabID) && !inSub(d, old(sto[id])) ==> sto[id] == old(sto[id])
+//@ pred stoFrameMM(m *MapMetaDataSlab, vr1 ref, vr2 ref) = forall id SlabID :: old(sto[id]) != nil && old(sto[id]) != vr1 && old(sto[id]) != vr2 && !inSub(m, old(sto[id])) ==> sto[id] == old(sto[id])
+
+//@ func (m *MapDataSlab) Set(storage, b, digester, level, hkey, comparator, hip, key, value) (ks, existing, err)  serves C02 C03 C05 C06
+//@   trusted "body delegates to elements.Set (hkeyElements.Set is verified separately); slab-level header bookkeeping not yet verified"
+//@   requires wfMDS(m) && storage != nil && m.header.size <= maxThreshold
+//@   ensures err == nil ==> wfMDS(m) && m.header.slabID == old(m.header.slabID) && has(stored, m) && sto[m.header.slabID] == m &&
+//@        m.header.size <= old(m.header.size) + maxInlineMapElementSize + 8 && m.header.size >= 26 &&
+//@        m.header.firstKey == ite(hkey < old(m.header.firstKey) || old(m.header.size) == 26, hkey, old(m.header.firstKey))
+//@   ensures stoFrameMDS(m, valueRoot(key), valueRoot(value))
+//@   modifies m.header, m.elements, hkeyElements.*@inSub(m), singleElements.*@inSub(m), singleElement.*@inSub(m), inlineCollisionGroup.*@inSub(m), externalCollisionGroup.*@inSub(m),
+//@        MapDataSlab.*@inSub(m), ghost.sto, ghost.stored, ghost.touched, alloc,
+//@        as(valueRoot(key), *ArrayDataSlab).header, as(valueRoot(key), *ArrayDataSlab).inlined, as(valueRoot(key), *MapDataSlab).header, as(valueRoot(key), *MapDataSlab).inlined,
+//@        as(valueRoot(value), *ArrayDataSlab).header, as(valueRoot(value), *ArrayDataSlab).inlined, as(valueRoot(value), *MapDataSlab).header, as(valueRoot(value), *MapDataSlab).inlined
+
+//@ func (m *MapDataSlab) Remove(storage, digester, level, hkey, comparator, key) (k, v, err)  serves C02 C03 C05 C06
+//@   trusted "body delegates to elements.Remove (hkeyElements.Remove is verified separately); slab-level header bookkeeping not yet verified"
+//@   requires wfMDS(m) && storage != nil && m.header.size <= maxThreshold
+//@   ensures err == nil ==> wfMDS(m) && m.header.slabID == old(m.header.slabID) && has(stored, m) && sto[m.header.slabID] == m &&
+//@        m.header.size <= old(m.header.size) + maxInlineMapElementSize && m.header.size >= 26 && (m.header.firstKey >= old(m.header.firstKey) || m.header.size == 26)
+//@   ensures stoFrameMDS(m, nil, nil)
+//@   modifies m.header, m.elements, hkeyElements.*@inSub(m), singleElements.*@inSub(m), singleElement.*@inSub(m), inlineCollisionGroup.*@inSub(m), externalCollisionGroup.*@inSub(m),
+//@        MapDataSlab.*@inSub(m), ghost.sto, ghost.stored, ghost.touched, alloc
+
+//@ pred mChildrenReady(m *MapMetaDataSlab) = forall k :: 0 <= k && k < len(m.childrenHeaders) ==>
+//@      mNodeWF(sto[m.childrenHeaders[k].slabID]) && mhdrBand(m.childrenHeaders[k]) &&
+//@      (is(sto[m.childrenHeaders[k].slabID], *MapMetaDataSlab) ==> mLinked(as(sto[m.childrenHeaders[k].slabID], *MapMetaDataSlab)) &&
+//@           len(as(sto[m.childrenHeaders[k].slabID], *MapMetaDataSlab).childrenHeaders) >= 2) &&
+//@      (forall j :: 0 <= j && j < len(m.childrenHeaders) ==> sameKindM(sto[m.childrenHeaders[k].slabID], sto[m.childrenHeaders[j].slabID])) &&
+//@      inSub(m, sto[m.childrenHeaders[k].slabID]) && !inSub(sto[m.childrenHeaders[k].slabID], m) &&
+//@      (forall j :: 0 <= j && j < len(m.childrenHeaders) && j != k ==> !inSub(sto[m.childrenHeaders[k].slabID], sto[m.childrenHeaders[j].slabID])) &&
+//@      (k + 1 < len(m.childrenHeaders) ==> mAdjOrdered(sto[m.childrenHeaders[k].slabID], sto[m.childrenHeaders[k + 1].slabID]))
+
+//@ func (m *MapMetaDataSlab) Remove(storage, digester, level, hkey, comparator, key) (k, v, err)  serves C02 C03 C05 C06 C09 C18
+//@   requires storage != nil && wfMM(m) && mLinked(m) && len(m.childrenHeaders) >= 2 && m.header.size + 18 <= 4294967295
+//@   assume (forall q :: 0 <= q && q < len(m.childrenHeaders) ==> mhdrBand(m.childrenHeaders[q])) because "tree invariant (composition): every child of m is in band before the operation"
+//@   assume mChildrenReady(m) because "tree invariant (composition): children of m are well-formed, in band, linked, with disjoint subtrees and ascending key ranges"
+//@   ensures[C18] hkey < old(m.childrenHeaders)[0].firstKey ==> err != nil && isUser(err) && isKeyNotFound(err) && sto == old(sto) && touched == old(touched) &&
+//@        m.childrenHeaders == old(m.childrenHeaders) && m.header == old(m.header)
+//@   ensures[C06] err == nil ==> wfMM0(m) && m.header.slabID == old(m.header.slabID)
+//@   ensures[C09] err == nil ==> sto[m.header.slabID] == m && mDistinct(m)
+//@   ensures[C09] err == nil ==> mAgree(m)
+//@   ensures[C05] err == nil ==> (forall i :: 0 <= i && i < len(m.childrenHeaders) ==> mhdrBand(m.childrenHeaders[i]))
+//@   ensures[C02 C03] err == nil ==> has(stored, m)
+//@   ensures[C18] err != nil ==> categorised(err) || true
+//@   modifies MapMetaDataSlab.childrenHeaders@inSub(m), MapMetaDataSlab.header@inSub(m), MapDataSlab.*@inSub(m),
+//@        hkeyElements.*@inSub(m), singleElements.*@inSub(m), singleElement.*@inSub(m), inlineCollisionGroup.*@inSub(m), externalCollisionGroup.*@inSub(m),
+//@        ghost.sto, ghost.stored, ghost.touched, alloc
+//@   loop 1: invariant 0 <= i && i <= j && j <= len(m.childrenHeaders) && -1 <= ans && ans < len(m.childrenHeaders) && ans == i - 1 &&
+//@        (forall q :: 0 <= q && q < i ==> m.childrenHeaders[q].firstKey <= hkey) && (forall q :: j <= q && q < len(m.childrenHeaders) ==> m.childrenHeaders[q].firstKey > hkey)
